@@ -84,8 +84,8 @@ constexpr auto ct_grid()
         std::size_t n = 0;
         constexpr void add(T x) { v[n++] = x; }
     } r;
-    T const pos[] = {(T)0, L::denorm_min(), L::min(), (T)0.5, (T)1, (T)1.5, (T)2, (T)2.5, (T)3, (T)7, (T)100.5,
-                     std::is_same_v<T, float> ? (T)8388607.5 : (T)4503599627370495.5, (T)1e30, L::max(), L::infinity(), L::quiet_NaN()};
+    T const pos[] = {(T)0, L::denorm_min(), L::min(), (T)0.5, (T)1, (T)1.5, (T)2.5, (T)3, (T)100.5,
+                     std::is_same_v<T, float> ? (T)8388607.5 : (T)4503599627370495.5, L::max(), L::infinity(), L::quiet_NaN()};
     for (T p : pos) {
         r.add(p);
         r.add(-p);
